@@ -6,7 +6,7 @@ import (
 	"strings"
 )
 
-var methOrder = []string{"vv", "pv", "vp", "pp", "vi", "pi"}
+var methOrder = []string{"vv", "pv", "vp", "pp", "vi", "pi", "pd"}
 
 // ShrinkSize is the first component of the shrinking measure: constructor
 // nodes plus struct fields beyond the first.
